@@ -18,7 +18,7 @@
    internals of the dependency crates (their panic behaviour is part of the oracles). *)
 From MelVerif Require Import STF.Model VM.Exec STF.Proofs.Pool STF.Proofs.Counts STF.Proofs.Total STF.Proofs.Supply
   STF.Proofs.HashFacts STF.Proofs.NoPanicBatch STF.Proofs.Witness STF.Proofs.SealLift STF.Proofs.SealInv STF.Proofs.SealCounts
-  STF.Proofs.SealCoins STF.Proofs.SealSupply STF.Proofs.History STF.Proofs.SealTotal STF.Proofs.Witness5 STF.Proofs.Witness6.
+  STF.Proofs.SealCoins STF.Proofs.SealSupply STF.Proofs.History STF.Proofs.SealTotal STF.Proofs.Declared STF.Proofs.BoundsHistory STF.Proofs.ApplyBlock STF.Proofs.Witness5 STF.Proofs.Witness6.
 Open Scope N_scope.
 
 Theorem C09_covenants_terminate : forall O prog hp, run O prog hp <> OutOfFuel.
@@ -148,8 +148,8 @@ Theorem C09_seal_total_from_invariants : forall K, NoDup (map poolkey_code K) ->
   legacy_net s && (s_height s <? 978392) = false ->
   (forall t k1, In t (sorted_txs s) -> tx_pool t = Some k1 -> In k1 K /\ LDk SO k1 <> fst k1 /\ LDk SO k1 <> snd k1) ->
   NoDup (key_pairs (sorted_txs s)) ->
-  (forall t c, In t (sorted_txs s) -> s_coins s !! key0 t = Some c -> as_declared c (out0 t)) ->
-  (forall t c, In t (sorted_txs s) -> s_coins s !! key1 t = Some c -> as_declared c (out1 t)) ->
+  (forall t c, In t (sorted_txs s) -> s_coins s !! key0 t = Some c -> as_declared t c (out0 t)) ->
+  (forall t c, In t (sorted_txs s) -> s_coins s !! key1 t = Some c -> as_declared t c (out1 t)) ->
   nsum (map (fun t => cd_value (out0 t)) (sorted_txs s)) < U128 ->
   nsum (map (fun t => cd_value (out1 t)) (sorted_txs s)) < U128 ->
   (forall s2, process_swaps (create_builtins s) = Ok s2 ->
@@ -168,6 +168,31 @@ Theorem C09_seal_total_from_invariants : forall K, NoDup (map poolkey_code K) ->
 Proof. exact seal_total_from_invariants. Qed.
 Print Assumptions C09_seal_total_from_invariants.
 
+(* and in every reachable state - every state of every history (Properties/C20.v) from a state of the invariant
+   [Good2] (Properties/C01.v; the genesis state is one) - nothing needs to be assumed about the coins: *)
+Theorem C09_seal_total_in_reachable_states : forall K, NoDup (map poolkey_code K) -> forall SO, In MS K /\ In ME K /\ In ES K ->
+  (forall k1 k2, In k1 K -> In k2 K -> LDk SO k1 = LDk SO k2 -> k1 = k2) ->
+  forall ops s0, Good2 s0 -> hist_ok SO s0 ops ->
+  let s := fold_left (hstep SO) ops s0 in
+  legacy_net s && (s_height s <? 978392) = false ->
+  (forall t k1, In t (sorted_txs s) -> tx_pool t = Some k1 -> In k1 K /\ LDk SO k1 <> fst k1 /\ LDk SO k1 <> snd k1) ->
+  nsum (map (fun t => cd_value (out0 t)) (sorted_txs s)) < U128 ->
+  nsum (map (fun t => cd_value (out1 t)) (sorted_txs s)) < U128 ->
+  (forall s2, process_swaps (create_builtins s) = Ok s2 ->
+     forall k1 p'' m, In k1 K ->
+       pool_deposit (pool_at s2 k1)
+         (nsum (map (fun t => cd_value (out0 t)) (txs_for_pool (List.filter (is_deposit_request s2) (sorted_txs s2)) k1)))
+         (nsum (map (fun t => cd_value (out1 t)) (txs_for_pool (List.filter (is_deposit_request s2) (sorted_txs s2)) k1))) = Ok (p'', m) ->
+       p_liqs (pool_at s2 k1) + m < U128) ->
+  (forall k p1, builtin k -> get_pool (create_builtins s) k = Some p1 ->
+     coin_supply (LDk SO k) (s_coins s) + psum K (LDk SO k) (create_builtins s) + 1 <= p_liqs p1) ->
+  (forall k p, builtin k -> get_pool s k = Some p -> live p) ->
+  (s_height s - TIP_909_HEIGHT) / 1000000 < 128 ->
+  (forall s1 sm, preseal_melmint SO s = Ok s1 -> get_pool s1 MS = Some sm -> s_fee_pool s + p_lefts sm + s_tips s < U128) ->
+  forall a, exists s', seal SO s a = Ok s'.
+Proof. exact seal_total_reachable. Qed.
+Print Assumptions C09_seal_total_in_reachable_states.
+
 (* the hypotheses hold together on a concrete state (after the batch of STF/Proofs/Witness.v) *)
 Example C09_seal_witness :
   (forall k1 k2, named w_s1 k1 -> named w_s1 k2 -> poolkey_code k1 = poolkey_code k2 -> k1 = k2) /\
@@ -179,3 +204,25 @@ Example C09_seal_witness :
   (s_height w_s1 - TIP_909_HEIGHT) / 1000000 < 128 /\
   (forall s1 sm, preseal_melmint w_oracle w_s1 = Ok s1 -> get_pool s1 MS = Some sm -> s_fee_pool w_s1 + p_lefts sm + s_tips w_s1 < U128).
 Proof. exact w_seal_total_hypotheses. Qed.
+
+(* ---- apply_block as a whole.  Besides applying the transactions and sealing, apply_block asserts that the
+   state it builds on has at least two pools, looks up the previous header for the covenants and forms the new
+   header; the two lookups cannot fail on the state it builds (the header is stored one line earlier), so
+   apply_block panics only where one of its parts does - and the parts are covered by [C09_batch_never_panics]
+   and [C09_seal_total_in_reachable_states] / [C09_seal_never_panics]. *)
+Theorem C09_apply_block_never_panics : forall SO (rf : wstate -> roots) s hdr blk_header txs a,
+  pool_count_ok (next_unsealed s hdr) = true ->
+  no_panic (apply_tx_batch SO (next_unsealed s hdr) hdr txs) ->
+  (forall b1, apply_tx_batch SO (next_unsealed s hdr) hdr txs = Ok b1 -> no_panic (seal SO b1 a)) ->
+  no_panic (apply_block SO rf s hdr blk_header txs a).
+Proof. exact apply_block_never_panics. Qed.
+Print Assumptions C09_apply_block_never_panics.
+(* the assertion is real: on a state with fewer than two pools (a sealed state that never went through
+   seal's bootstrap cannot be built by the library, so this is unreachable through the public API) every block panics *)
+Theorem C09_apply_block_asserts_two_pools : forall SO (rf : wstate -> roots) s hdr blk_header txs a,
+  pool_count_ok (next_unsealed s hdr) = false -> apply_block SO rf s hdr blk_header txs a = Panic P_ASSERT.
+Proof. exact apply_block_panics_without_pools. Qed.
+Print Assumptions C09_apply_block_asserts_two_pools.
+Theorem C09_pool_count_unchanged_by_next : forall s hdr, pool_count_ok (next_unsealed s hdr) = pool_count_ok s.
+Proof. exact pool_count_next. Qed.
+Print Assumptions C09_pool_count_unchanged_by_next.
